@@ -147,7 +147,7 @@ CLAIMS = {
              "equal terms (spectral norms are opaque atoms keyed by the matrix). Larger "
              "constants are accepted, smaller ones are violations. The accuracy of the power "
              "method is not decided."
-             " Cox: raw_hessian minus the Hessian diagonal of value() is a sum of positive terms on six tie / censoring patterns; the power iteration starts from a random draw; the CSC helpers behind sparse constants (sparse_columns_slice, X/X^T products) equal their dense meaning, empty columns included.",
+             " Cox: raw_hessian minus the Hessian diagonal of value() is a sum of positive terms on six tie / censoring patterns; the power iteration starts from a random draw; the CSC helpers behind sparse constants (sparse_columns_slice, X/X^T products) equal their dense meaning, empty columns included. spectral_norm of a block without stored entries is lifted and returns exactly 0 without dividing by the zero norm of the iterate.",
         design_ref="DESIGN.md §3.5 R-LIPC, §4 C09",
         note="Cox and SqrtQuadratic are documented bounds (tabled, reason recorded).",
         technique="lifted-term comparison with constant-ratio extraction",
@@ -173,7 +173,7 @@ CLAIMS = {
              "input validation converts to CSC (no other sparse format reaches a kernel); "
              "float32 flag plumbing is under C11; solver objects store no state. Equality of "
              "converged results is not decided."
-             " The dense and CSC copies of every solver kernel (coordinate / block epochs, gradient builders, prox-Newton direction and line search) and the CSC helper functions are lifted on a 3x3 design with structural zeros (and an empty column for the helpers) and must leave equal terms in coefficients, model fit and returned arrays.",
+             " The dense and CSC copies of every solver kernel (coordinate / block epochs, gradient builders, prox-Newton direction and line search) and the CSC helper functions are lifted on a 3x3 design with structural zeros (and an empty column for the helpers) and must leave equal terms in coefficients, model fit and returned arrays. spectral_norm of an all-empty block returns 0, as the dense norm does.",
         design_ref="DESIGN.md §3.2 R-CSC, §4 C10",
         note="Kernel-level dense/sparse agreement of formulas is decided under C06 (datafit "
              "accessors).",
@@ -186,7 +186,8 @@ CLAIMS = {
              "a reviewed alias; every repo constructor called in fit/path that has a formal "
              "named like an estimator parameter receives self.<parameter>; datafit clones with "
              "float fields pass the float32 flag; every fit ends in _glm_fit/solver.solve; "
-             "None-default arguments are not dereferenced unguarded. Does not decide "
+             "None-default arguments are not dereferenced unguarded; the (grp_indices, grp_ptr) "
+             "pair of grp_converter reaches the group penalty and datafit unchanged. Does not decide "
              "stationarity (C01) nor docstring formulas.",
         design_ref="DESIGN.md §3.3 R-PLUMB, §4 C11",
         note="Alias table (max_epochs->max_pn_iter, C->alpha) is reviewed by hand.",
@@ -215,7 +216,7 @@ CLAIMS = {
              "attributes are initialised for the storage mode; no local can be unbound at a "
              "use on a knob-consistent path. Does not decide numerical outcomes of accepted "
              "cells; extent (shape) agreement is under C20."
-             " A solver that never reads its datafit argument accepts only None or the loss it hard-codes.",
+             " A solver that never reads its datafit argument accepts only None or the loss it hard-codes. Whole-array arguments of penalty / datafit slots have the extent of the per-feature attributes an accepted implementation combines them with (no `w[ws]`, no coefficient array with its intercept slot); `*_like` allocations taking the integer type of an index array receive no real number; the working set reaching a buffer shape is the one cut to that size.",
         design_ref="DESIGN.md §3.2 R-REQ/R-SLOT/R-SPEC/R-MATRIX, §4 C13",
         note="check_attrs semantics (hasattr(obj, name+suffix)) is re-verified against "
              "validation.py on every run.",
@@ -246,7 +247,7 @@ CLAIMS = {
              "coefficient arrays occur only under the intercept flag; offset subscripts of "
              "pointer arrays (indptr[j+1], grp_ptr[g+1]) are within the loop bound. "
              "Value-dependent indices (contents of user arrays) are an input contract."
-             " Every solver kernel, fixed-point score and CSC helper is lifted on small concrete shapes (3x3 design with structural zeros / an empty column, non-contiguous groups, permuted working sets) where every subscript is bounds-checked by the lifter: an out-of-range index on those shapes is a violation. Across calls: a kernel that indexes a parameter by coordinates is never handed an array restricted to the working set; initialize / initialize_sparse is control-dependent on the storage dispatch only, so lazy attributes of earlier data are never read.",
+             " Every solver kernel, fixed-point score and CSC helper is lifted on small concrete shapes (3x3 design with structural zeros / an empty column, non-contiguous groups, permuted working sets) where every subscript is bounds-checked by the lifter: an out-of-range index on those shapes is a violation. Across calls: a kernel that indexes a parameter by coordinates is never handed an array restricted to the working set; initialize / initialize_sparse is control-dependent on the storage dispatch only, so lazy attributes of earlier data are never read. Whole-array slot arguments match the per-feature attributes of accepted implementations; Anderson buffers and reshapes sized with the working-set size see the working set that was cut to that size.",
         design_ref="DESIGN.md §2 L4, §3.4 R-IDX/R-SLICE, §4 C20",
         note="Extents are symbols with +/-1 offsets; G <= P is never assumed.",
         technique="index-domain inference + linear offset comparison of loop bounds and "
@@ -299,7 +300,7 @@ CLAIMS = {
              "fact (or is a tabled exemption with a reason), and that every loop is bounded "
              "(for over ranges/arrays; the two while loops have recorded variants). "
              "Finiteness under overflow is not decided."
-             " No absolute-epsilon guard; the only tabled division exemptions are per construct.",
+             " No absolute-epsilon guard; the only tabled division exemptions are per construct. spectral_norm on an all-empty block returns 0 without a 0 / 0.",
         design_ref="DESIGN.md §3.1 R-DIV/R-LOOP, §4 C19",
         note="numpy-level divisions (inf, no exception) at interpreter level are accepted "
              "unless the denominator is a Python float returned by a jitclass method.",
